@@ -10,3 +10,4 @@ for P in "$@"; do
 done
 git -C /repo checkout -- .
 rm -rf /verif/replays
+python3 /verif/tools/rs2lean.py >/dev/null 2>&1
